@@ -129,6 +129,32 @@ def run(ctx):
             reqs.append({"op": "beat.mod", "a": frac(x), "b": frac(y)})
             checks.append(None); checks.append(("pair", chk))
 
+    # (2b) the same number through exact and inexact constructors, in both orders, in one process ------
+    for i in range(ctx.scale(600, 8000)):
+        if rng.random() < .5:
+            d = rng.randrange(1, 5); q = Fraction(rng.randrange(-500 * 10 ** d, 500 * 10 ** d), 10 ** d)
+            kinds = ["decimal", "decstr", "fraction", "pair"]
+        else:
+            m = rng.randrange(1, 9); q = Fraction(rng.randrange(-300 * 2 ** m, 300 * 2 ** m), 2 ** m)
+            kinds = ["float", "decimal", "fraction", "pair", "decstr"]
+        seq = [rng.choice(kinds) for _ in range(rng.randrange(2, 5))]
+        rounded = Fraction(round(q * 48), 48)
+        case = {"stream": "mixed-constructors", "value": str(q), "sequence": seq}
+        res.case(case, nontrivial=(q * 48).denominator != 1)
+        for k in seq:
+            try:
+                if k == "decimal": got, exp = Beat(Decimal(q.numerator) / Decimal(q.denominator)), rounded
+                elif k == "decstr": got, exp = Beat(format(Decimal(q.numerator) / Decimal(q.denominator), "f")), rounded
+                elif k == "float": got, exp = Beat(float(q)), rounded
+                elif k == "fraction": got, exp = Beat(Fraction(q)), q
+                else: got, exp = Beat(q.numerator, q.denominator), q
+            except Exception as ex:
+                res.violation(case, "constructor raised", impl=core.exc_name(ex)); break
+            if got != exp or type(got) is not Beat:
+                res.violation(case, "a beat depends on how the same number was constructed earlier (exact input must stay exact, inexact input must snap)",
+                              kind=k, impl=str(got), expected=str(exp)); break
+        res.traces += 1
+
     # (3) text form on the grid ------------------------------------------------------------------
     lim = 96000 if ctx.thorough else 9600
     grid = list(range(-lim, lim + 1))
